@@ -1,5 +1,5 @@
 use super::tag::{SyntheticTag, TagInner};
-use super::{utc_timestamp, Annotation, Status, Tag, Timestamp};
+use super::{Annotation, Status, Tag, Timestamp};
 use crate::depmap::DependencyMap;
 use crate::errors::{Error, Result};
 use crate::storage::TaskMap;
@@ -206,13 +206,18 @@ impl Task {
     pub fn get_annotations(&self) -> impl Iterator<Item = Annotation> + '_ {
         self.data.iter().filter_map(|(k, v)| {
             if let Some(ts) = k.strip_prefix("annotation_") {
-                if let Ok(ts) = ts.parse::<i64>() {
+                if let Some(entry) = ts
+                    .parse::<i64>()
+                    .ok()
+                    .and_then(|ts| Utc.timestamp_opt(ts, 0).single())
+                {
                     return Some(Annotation {
-                        entry: utc_timestamp(ts),
+                        entry,
                         description: v.to_owned(),
                     });
                 }
-                // note that invalid "annotation_*" are ignored
+                // note that invalid "annotation_*" are ignored, including those whose
+                // timestamp is not a representable time
             }
             None
         })
@@ -551,7 +556,8 @@ impl Task {
     pub fn get_timestamp(&self, property: &str) -> Option<Timestamp> {
         if let Some(ts) = self.data.get(property) {
             if let Ok(ts) = ts.parse() {
-                return Some(utc_timestamp(ts));
+                // an integer that is not a representable time also defaults to None
+                return Utc.timestamp_opt(ts, 0).single();
             }
             // if the value does not parse as an integer, default to None
         }
